@@ -19,6 +19,7 @@ import (
 	"fmt"
 	"path/filepath"
 	"runtime"
+	"strings"
 )
 
 // CodecErr is returned when the codec encounters an error.
@@ -31,7 +32,22 @@ func (e CodecErr) Error() string {
 	if e.Err == nil {
 		return e.Message
 	}
-	return e.Message + ":\n  " + e.Err.Error()
+	// walk the chain iteratively: one wrapped error per nesting level of the input would
+	// otherwise cost quadratic time and memory in the depth
+	var b strings.Builder
+	b.WriteString(e.Message)
+	next := e.Err
+	for next != nil {
+		b.WriteString(":\n  ")
+		if ce, ok := next.(CodecErr); ok {
+			b.WriteString(ce.Message)
+			next = ce.Err
+		} else {
+			b.WriteString(next.Error())
+			next = nil
+		}
+	}
+	return b.String()
 }
 
 func newCodecError(dataType string, a ...interface{}) CodecErr {
